@@ -335,8 +335,8 @@ class Exec:
             nret += 1
             st2.trace.append('ret@%d' % getattr(sig, 'line', 0)
                              if sig is not None else 'ret@end')
-            if nret == 1:
-                self.canary(st2, 'return', fi.lineno)
+            if nret <= 8:
+                self.canary(st2, 'return#%d' % nret, fi.lineno)
             c.check_post(self, st2, st2.env['$args'], val)
         return self.obligations
 
@@ -513,27 +513,58 @@ class Exec:
                         mine[k] = v
 
     def implied(self, st, f):
-        """does the path condition imply f?  (small solver query)"""
+        """does the path condition imply f?  (solver query in a forked
+        child with a hard deadline: z3 does not always honour timeouts)"""
         if f is True:
             return True
         if f is False:
             return False
-        s = z3.Solver()
-        s.set(timeout=2000)
-        s.add(*[zbool(p) for p in st.pc])
-        s.add(z3.Not(zbool(f)))
-        return s.check() == z3.unsat
+        import os
+        import select
+        r, w = os.pipe()
+        pid = os.fork()
+        if pid == 0:
+            os.close(r)
+            ans = b'0'
+            try:
+                s = z3.Solver()
+                s.set(timeout=3000)
+                s.add(*[zbool(p) for p in st.pc])
+                s.add(z3.Not(zbool(f)))
+                if s.check() == z3.unsat:
+                    ans = b'1'
+            except BaseException:      # noqa
+                pass
+            try:
+                os.write(w, ans)
+            finally:
+                os._exit(0)
+        os.close(w)
+        rd, _, _ = select.select([r], [], [], 6.0)
+        ans = os.read(r, 1) if rd else b'0'
+        os.close(r)
+        try:
+            os.kill(pid, 9)
+        except OSError:
+            pass
+        os.waitpid(pid, 0)
+        return ans == b'1'
 
     def feasible(self, st):
         """cheap pruning of dead paths (sound: only drops paths whose path
-        condition is unsatisfiable)"""
+        condition is unsatisfiable).  Quantified assumptions are left out of
+        the query (dropping assumptions can only make more paths look
+        feasible) because z3 may not honour its timeout on them."""
         self.path_count += 1
         if not self.prune:
             return True
+        if st.dead:
+            return False
         s = z3.Solver()
         s.set(timeout=300)
-        s.add(*[zbool(p) for p in st.pc])
-        return s.check() != z3.unsat
+        s.add(*[zbool(p) for p in st.pc if not _has_quantifier(zbool(p))])
+        from .solve import _watchdog_check
+        return _watchdog_check(s, 3) != z3.unsat
 
     prune = True
 
@@ -722,11 +753,8 @@ class Exec:
                         continue
                     b1.assume(t)
                     bodies.append(b1)
-            first = True
-            for b1 in bodies:
-                if first:
-                    self.canary(b1, tag + ':body', s.lineno)
-                    first = False
+            for kb, b1 in enumerate(bodies[:4]):
+                self.canary(b1, tag + ':body#%d' % kb, s.lineno)
                 v0 = spec.variant(Env(b1)) if spec.variant else None
                 snap = Env(b1.clone()) if spec.body_post else None
                 for b2, sig in self.exec_block(s.body, b1, fi, c):
@@ -767,7 +795,7 @@ class Exec:
         for name, sp in spec.shapes.items():
             try:
                 v = self.lookup_path(st, name)
-            except KeyError:
+            except (KeyError, AttributeError):
                 if 'inv-init' in label:
                     continue        # first assigned inside the loop
                 raise
@@ -833,7 +861,7 @@ class Exec:
                 continue
             try:
                 old = self.lookup_path(st, name)
-            except KeyError:
+            except (KeyError, AttributeError):
                 continue       # first assigned inside the loop
             self.store_path(st, name, self.fresh_like(old, st, name))
 
@@ -852,6 +880,8 @@ class Exec:
             return None
         if isinstance(v, tuple):
             return tuple(self.fresh_like(x, st, name) for x in v)
+        if isinstance(v, Opaque):
+            return Opaque(v.tag, v.data)
         if isinstance(v, Opt):
             raise Unsupported('havoc of optional %s needs a shape' % name)
         raise Unsupported('havoc of %s (%r) needs a shape in the loop '
@@ -2241,6 +2271,30 @@ def _path_of(node):
 
 
 _MUTATORS = ('append', 'extend', 'insert', 'pop', 'sort', 'remove', 'clear')
+
+
+_QCACHE = {}
+
+
+def _has_quantifier(e):
+    k = e.get_id()
+    r = _QCACHE.get(k)
+    if r is None:
+        r = False
+        todo = [e]
+        seen = set()
+        while todo:
+            x = todo.pop()
+            i = x.get_id()
+            if i in seen:
+                continue
+            seen.add(i)
+            if z3.is_quantifier(x):
+                r = True
+                break
+            todo.extend(x.children())
+        _QCACHE[k] = r
+    return r
 
 
 def _split_goal(g, depth=0):
